@@ -687,5 +687,42 @@ func ruleM6(c *Ctx) {
 			}
 		}
 	}
+	// nothing else writes the table: entries are added by Open and removed by conn.Close only; the map itself is set once, on a new mux
+	for _, f := range m.funcsInPkg(pkgMux) {
+		for _, b := range f.Blocks {
+			for _, in := range b.Instrs {
+				kind := ""
+				switch x := in.(type) {
+				case *ssa.MapUpdate:
+					if isConnsPath(m.ap(x.Map)) {
+						kind = "update"
+					}
+				case *ssa.Call:
+					if bi, ok := x.Call.Value.(*ssa.Builtin); ok && bi.Name() == "delete" && isConnsPath(m.ap(x.Call.Args[0])) {
+						kind = "delete"
+					}
+				case *ssa.Store:
+					if a := m.ap(x.Addr); isConnsPath(a) {
+						kind = "replace"
+						if _, fresh := a.Root.(*ssa.Alloc); fresh {
+							kind = "init"
+						}
+					}
+				}
+				if kind == "" || kind == "init" {
+					continue
+				}
+				root := f
+				for root.Parent() != nil {
+					root = root.Parent()
+				}
+				okW := (kind == "update" && root == op) || (kind == "delete" && root == cc)
+				c.ok("M6", "table-writer/"+funcKey(f)+"/"+kind, in.Pos(), okW, "the connection table is only changed by Open (register) and conn.Close (unregister)",
+					fmt.Sprintf("%s changes the connection table (%s): a registered connection can be replaced or dropped behind the back of its reader, losing or misrouting its frames", funcKey(f), kind))
+			}
+		}
+	}
 	c.ok("M6", "Close/self-only", cc.Pos(), okDel, "conn.Close unregisters the id only if it is still registered to this very connection", "conn.Close deletes the table entry unconditionally: closing a stale handle unregisters a newer connection with the same id")
 }
+
+func isConnsPath(a AP) bool { return len(a.Path) > 0 && a.Path[len(a.Path)-1] == "conns" }
